@@ -281,6 +281,20 @@ func causesFor(f option.Format) []cause {
 			{"utf16_padding",
 				func(t *table, o opts, r *rtResult) bool { return utf16Family(o.enc) },
 				func(t *table, o opts) (*table, opts) { o.enc = text.UTF8; return t, o }},
+			// the loader must hand the WHOLE file to the position detection: the positions go-text's detector finds on
+			// the whole written file, given explicitly, read the file back — so the heuristic (F16) is not the cause
+			{"positions_not_detected_on_whole_file",
+				func(t *table, o opts, r *rtResult) bool { return o.positions == nil && r.encErr == nil && len(r.data) > 0 },
+				func(t *table, o opts) (*table, opts) {
+					wo := o
+					wo.positions, wo.readPos = nil, nil
+					if b, err := realEncode(t, wo); err == nil {
+						if ps := wholeFilePositions(append(b, wo.lb.Value()...), wo); ps != nil {
+							o.readPos = ps
+						}
+					}
+					return t, o
+				}},
 			{"automatic_positions",
 				func(t *table, o opts, r *rtResult) bool { return o.positions == nil },
 				func(t *table, o opts) (*table, opts) { o.readPos = writerPositions(t, o); return t, o }},
